@@ -43,6 +43,7 @@ void apiCase(size_t idx) {
 	ao.nv = (idx % 7 == 0) ? 150 + (int)rng.below(200) : 3 + (int)rng.below(50);
 	ao.nt = 1 + (int)rng.below(120);
 	ao.distinctWeights = idx % 3 != 0;
+	ao.usedObject = idx % 4 == 3;
 	ApiModel m = buildApiModel(seed, (int)idx, &ao);
 	if (!m.ok) return;
 	NifFile& nif = *m.nif;
